@@ -57,7 +57,7 @@ PROPS = {
                 gens=[(["try_join"], "mt", 0.3), (["try_join"], "drain", 0.5), (["try_join"], "exh", 1.0), (["try_join"], "random", 1.0), (["try_join"], "errs", 0.6), (["try_join"], "stuck", 0.2),
                       (["try_join"], "panic", 0.2), (["try_join"], "big", 0.08), (["try_join"], "waves", 0.2)],
                 assumptions=COMMON_ASSUME),
-    "C06": dict(ktie=["Idx", "RaceV", "RaceA"], monitors=["C06", "NP", "LV"], monitor="C06", modules=["C06", "C01"], proj="C03", cfgs=ALL3, quick=1500, thorough=20000,
+    "C06": dict(ktie=["Idx", "RaceV", "RaceA", "RaceT"], monitors=["C06", "NP", "LV"], monitor="C06", modules=["C06", "C01"], proj="C03", cfgs=ALL3, quick=1500, thorough=20000,
                 gens=[(["race"], "drain", 0.5), (["race"], "exh", 1.0), (["race"], "random", 1.0), (["race"], "stuck", 0.4), (["race"], "panic", 0.2),
                       (["race"], "big", 0.2)],
                 assumptions=COMMON_ASSUME + ["racing zero futures is outside C06 (the real code divides by zero in "
@@ -79,7 +79,7 @@ PROPS = {
                 gens=[(["zip"], "mt", 0.3), (["zip"], "drain", 0.5), (["zip"], "exh", 1.0), (["zip"], "random", 1.0), (["zip"], "fair", 0.4), (["zip"], "stuck", 0.2),
                       (["zip"], "panic", 0.2), (["zip"], "big", 0.08), (["zip"], "waves", 0.1)],
                 assumptions=COMMON_ASSUME + ["zip over zero inputs is outside C09"]),
-    "C10": dict(ktie=["ChainV", "ChainA"], monitors=["C10", "C03", "NP", "LV"], monitor="C10", modules=["C10", "C01seq"], proj="FUN", cfgs=ALL3, quick=2500, thorough=30000,
+    "C10": dict(ktie=["ChainV", "ChainA", "ChainT"], monitors=["C10", "C03", "NP", "LV"], monitor="C10", modules=["C10", "C01seq"], proj="FUN", cfgs=ALL3, quick=2500, thorough=30000,
                 gens=[(["chain"], "drain", 0.5), (["chain"], "exh", 1.0), (["chain"], "random", 1.0), (["chain"], "fair", 0.4), (["chain"], "stuck", 0.2),
                       (["chain"], "panic", 0.2), (["chain"], "big", 0.08)],
                 assumptions=COMMON_ASSUME),
